@@ -131,6 +131,8 @@ def layout(model):
     for k in sorted(mkeys(model)):
         ofs[k] = (o, o + msizes(model)[k])
         o += msizes(model)[k]
+    if model.get("cpar"):
+        o *= 2                      # complex parameters: flat vector = (real parts, imaginary parts)
     return ofs, o
 
 
@@ -138,6 +140,16 @@ def expected_cov(model, pe):
     """(C_full, M_liquid, liquid index list): posterior covariance at the expansion point on the full
     flat latent vector; rows/columns of point-estimated keys are zero"""
     ofs, n = layout(model)
+    if model.get("cpar"):
+        # complex parameters p = x + i y (prior energy 1/2 p^H p: unit variance for x and for y), linear
+        # complex response: real Jacobian of (Re s, Im s) w.r.t. (x, y)
+        assert model["kind"] == "lin" and not pe and model.get("Ri")
+        Rc = np.concatenate([cmat(model, k) for k in sorted(mkeys(model))], axis=1)
+        Jl = np.block([[Rc.real, -Rc.imag], [Rc.imag, Rc.real]])
+        ninv = 1.0 / np.array(model["var"], dtype=np.float64)
+        ninv = np.concatenate([ninv, ninv])
+        M = np.eye(n) + Jl.T @ (ninv[:, None] * Jl)
+        return np.linalg.inv(M), M, list(range(n))
     liquid = [k for k in sorted(mkeys(model)) if k not in pe]
     idx = [i for k in liquid for i in range(*ofs[k])]
     Jl, ninv = jac_real(model, liquid)
@@ -155,6 +167,8 @@ def model_classes(model, pe):
     Jl, _ = jac_real(model, sorted(mkeys(model)))
     rank = int(np.linalg.matrix_rank(Jl))
     cl = ["kind_" + model["kind"], f"keys_{len(model['keys'])}", "complex_data" if model.get("Ri") else "real_data"]
+    if model.get("cpar"):
+        cl.append("complex_parameters")
     nd, n = Jl.shape
     deficient = rank < min(nd, n)
     if deficient:
@@ -228,7 +242,8 @@ def build_cl(model, field_layout):
 def _real(a, what):
     a = np.asarray(a)
     if np.iscomplexobj(a):
-        require(not np.any(a.imag), "complex_residual_for_real_parameter", f"{what}: max |Im| = {np.max(np.abs(a.imag))}")
+        require(not np.any(a.imag), "complex_residual_for_real_parameter",
+                f"{what}: max |Im| = {np.max(np.abs(a.imag))}")
         a = a.real
     return a.astype(np.float64)
 
@@ -457,7 +472,8 @@ def check_cl_mc(rec):
 # ------------------------------------------------------------------------------------------------
 KD, KL, NDENSE = 5, 10, 2          # data basis keys, latent basis keys, dense keys
 KW = max(KD, KL)
-T_IM, T_LAT, T_ZERO, T_DENSE = KD, 2 * KD, 2 * KD + KL, 2 * KD + KL + 1      # offsets in the key table
+# offsets in the key table
+T_IM, T_LAT, T_LATI, T_ZERO, T_DENSE = KD, 2 * KD, 2 * KD + KL, 2 * KD + 2 * KL, 2 * KD + 2 * KL + 1
 _JX = {}
 
 
@@ -482,7 +498,7 @@ def jx():
 
     logging.getLogger("nifty.re.logger").setLevel(logging.CRITICAL)
     # table rows: [0, KD) real data basis, [KD, 2KD) imaginary data basis, [2KD, 2KD+KL) latent basis,
-    # then the zero key and NDENSE dense keys
+    # [2KD+KL, 2KD+2KL) imaginary latent basis (complex parameters), then the zero key and NDENSE dense keys
     nkeys = T_DENSE + NDENSE
 
     def sample_key(i):
@@ -491,19 +507,22 @@ def jx():
     w_nll = np.zeros((nkeys, KW))      # real part of the white vector of the likelihood draw
     w_nli = np.zeros((nkeys, KW))      # imaginary part (used for complex data only)
     w_prr = np.zeros((nkeys, KW))      # white vector of the prior draw
+    w_pri = np.zeros((nkeys, KW))      # its imaginary part (complex parameters only)
     for i in range(KD):
         w_nll[i, i] = 1.0
         w_nli[KD + i, i] = 1.0
     for j in range(KL):
         w_prr[T_LAT + j, j] = 1.0
+        w_pri[T_LATI + j, j] = 1.0
     for j in range(NDENSE):
         w_nll[T_DENSE + j] = _dense_row(j, 0)
         w_prr[T_DENSE + j] = _dense_row(j, 1)
         w_nli[T_DENSE + j] = _dense_row(j, 2)
+        w_pri[T_DENSE + j] = _dense_row(j, 3)
     sub = [np.asarray(random.split(sample_key(i), 2)) for i in range(nkeys)]
     tab_nll = jnp.asarray(np.stack([s[0] for s in sub]))
     tab_prr = jnp.asarray(np.stack([s[1] for s in sub]))
-    W_nll, W_nli, W_prr = jnp.asarray(w_nll), jnp.asarray(w_nli), jnp.asarray(w_prr)
+    W_nll, W_nli, W_prr, W_pri = jnp.asarray(w_nll), jnp.asarray(w_nli), jnp.asarray(w_prr), jnp.asarray(w_pri)
     state = {"calls": 0}
 
     def fake_random_like(key, primals, rng=None):
@@ -522,7 +541,7 @@ def jx():
                               "jax.random.split(key, 2): the interception does not fit nifty.re.evi any more")
         row = hn.astype(jnp.float64) @ W_nll + hp.astype(jnp.float64) @ W_prr
         row = jnp.where(ok, row, jnp.nan)
-        rowi = hn.astype(jnp.float64) @ W_nli
+        rowi = hn.astype(jnp.float64) @ W_nli + hp.astype(jnp.float64) @ W_pri
         leaves, struct = tree_flatten(primals)
         out, o = [], 0
         for lf in leaves:
@@ -552,21 +571,24 @@ def jx():
             evi.random_like = self.orig
             return False
 
-    _JX.update(jax=jax, jnp=jnp, random=random, jft=jft, evi=evi, sample_key=sample_key, w_nll=w_nll, w_nli=w_nli, w_prr=w_prr,
-               Patch=Patch, state=state, nkeys=nkeys)
+    _JX.update(jax=jax, jnp=jnp, random=random, jft=jft, evi=evi, sample_key=sample_key, w_nll=w_nll, w_nli=w_nli,
+               w_prr=w_prr, w_pri=w_pri, Patch=Patch, state=state, nkeys=nkeys)
     return _JX
 
 
-def re_keys(nd, nliq, cplx):
+def re_keys(nd, nliq, cplx, cpar=False):
     """table indices used for a model with nd (complex: nd + nd) data and nliq liquid latent dimensions,
     the sample keys, the white matrix W (n_keys x nb): row = unit-variance tape coordinates (real data part,
     [imaginary data part,] latent part) prescribed for that key, and nb = number of basis keys"""
     X = jx()
+    if cpar:
+        nliq //= 2                  # nliq counts real degrees of freedom
     idx = list(range(nd)) + ([T_IM + i for i in range(nd)] if cplx else []) + [T_LAT + j for j in range(nliq)]
+    idx += [T_LATI + j for j in range(nliq)] if cpar else []
     nb = len(idx)
     idx += [T_ZERO] + [T_DENSE + j for j in range(NDENSE)]
     W = np.concatenate([X["w_nll"][idx][:, :nd]] + ([X["w_nli"][idx][:, :nd]] if cplx else [])
-                       + [X["w_prr"][idx][:, :nliq]], axis=1)
+                       + [X["w_prr"][idx][:, :nliq]] + ([X["w_pri"][idx][:, :nliq]] if cpar else []), axis=1)
     keys = X["jnp"].stack([X["sample_key"](i) for i in idx])
     return idx, keys, W, nb
 
@@ -610,13 +632,20 @@ def build_re(model, cfg):
         kw["noise_cov_inv"] = lambda t: t / var
     if noise in ("std", "both"):
         kw["noise_std_inv"] = lambda t: t / jnp.sqrt(var)
+    cpar = bool(model.get("cpar"))
+    pdt = jnp.complex128 if cpar else jnp.float64
+
+    def pval(k):
+        v = np.array(model["pos"][k], dtype=np.float64)
+        return jnp.asarray(v + 1j * np.array(model["posi"][k], dtype=np.float64) if cpar else v)
+
     if array_layout:
         assert keys == ["a"]
-        dom = jax.ShapeDtypeStruct((sizes["a"],), jnp.float64)
-        pos = jnp.asarray(np.array(model["pos"]["a"], dtype=np.float64))
+        dom = jax.ShapeDtypeStruct((sizes["a"],), pdt)
+        pos = pval("a")
     else:
-        dom = jft.Vector({k: jax.ShapeDtypeStruct((sizes[k],), jnp.float64) for k in keys})
-        pos = jft.Vector({k: jnp.asarray(np.array(model["pos"][k], dtype=np.float64)) for k in keys})
+        dom = jft.Vector({k: jax.ShapeDtypeStruct((sizes[k],), pdt) for k in keys})
+        pos = jft.Vector({k: pval(k) for k in keys})
     lh = jft.Gaussian(data, **kw).amend(fwd, domain=dom)
 
     def flat(tree, lead=()):
@@ -625,14 +654,18 @@ def build_re(model, cfg):
         t = tree.tree if isinstance(tree, jft.Vector) else tree
         parts = []
         for k in keys:
-            leaf = _real(t if array_layout else t[k], k)
+            leaf = t if array_layout else t[k]
+            leaf = np.asarray(leaf) if cpar else _real(leaf, k)
             try:
                 leaf = np.broadcast_to(leaf, tuple(lead) + (sizes[k],))
             except ValueError:
                 raise Violation("residual_shape", f"leaf {k}: shape {leaf.shape} does not broadcast to "
                                                   f"{tuple(lead) + (sizes[k],)}")
             parts.append(leaf)
-        return np.concatenate(parts, axis=-1)
+        out = np.concatenate(parts, axis=-1)
+        if cpar:
+            out = np.concatenate([out.real, out.imag], axis=-1).astype(np.float64)
+        return out
 
     return lh, pos, flat
 
@@ -652,7 +685,8 @@ CG_KW = dict(absdelta=1e-20, maxiter=80, miniter=0)
 
 
 def _selftest_interception():
-    """once per process: an eager draw_linear_residual must route both white draws through the patch"""
+    """once per process: an eager draw_linear_residual must route both white draws through the patch (only
+    the routing is asserted here - a wrong numerical result is the business of the oracles)"""
     X = jx()
     if X.get("selftest"):
         return
@@ -661,13 +695,10 @@ def _selftest_interception():
         (2,), jnp.float64))
     before = X["state"]["calls"]
     with X["Patch"]():
-        r, _ = jft.draw_linear_residual(lh, jnp.zeros(2), X["sample_key"](0), cg_kwargs=CG_KW)
+        jft.draw_linear_residual(lh, jnp.zeros(2), X["sample_key"](0), cg_kwargs=CG_KW)
     if X["state"]["calls"] != before + 2:
         raise T.TapeError(f"draw_linear_residual made {X['state']['calls'] - before} calls to the patched "
                           "random_like, expected 2 (likelihood and prior draw)")
-    # data basis vector 0, metric 2: residual = M^-1 (L e_0) = e_0 / 2
-    if not np.allclose(np.asarray(r), [0.5, 0.0], atol=1e-12):
-        raise T.TapeError(f"interception self-test gave {np.asarray(r)}")
     X["selftest"] = True
 
 
@@ -697,7 +728,7 @@ def check_re_linear(rec):
     C, M, idx_liq = expected_cov(model, pe)
     ofs, n = layout(model)
     nd = model["nd"]
-    idx, keys, W, nb = re_keys(nd, len(idx_liq), bool(model.get("Ri")))
+    idx, keys, W, nb = re_keys(nd, len(idx_liq), bool(model.get("Ri")), bool(model.get("cpar")))
     classes, deficient = model_classes(model, pe)
     with X["Patch"]():
         c0 = X["state"]["calls"]
@@ -743,7 +774,8 @@ def check_re_linear(rec):
     classes += ["array_pos" if cfg.get("array") else "vector_pos", "noise_" + cfg.get("noise", "cov")]
     if pe:
         classes += ["point_estimate", "pe_style_" + cfg.get("pe_style", "names")]
-    return dict(nontrivial=len(model["keys"]) >= 2 or bool(pe) or deficient, classes=classes)
+    return dict(nontrivial=len(model["keys"]) >= 2 or bool(pe) or deficient or bool(model.get("cpar")),
+                classes=classes)
 
 
 DRIVER_CFGS = {
@@ -768,7 +800,7 @@ def check_re_driver(rec):
     C, M, idx_liq = expected_cov(model, pe)
     ofs, n = layout(model)
     nd = model["nd"]
-    idx, keys, W, nb = re_keys(nd, len(idx_liq), bool(model.get("Ri")))
+    idx, keys, W, nb = re_keys(nd, len(idx_liq), bool(model.get("Ri")), bool(model.get("cpar")))
     rmap, minjit, jit, static = DRIVER_CFGS[cfg["driver"]]
     cgf = jft.conjugate_gradient.static_cg if static else jft.conjugate_gradient.cg
     dl_kw = dict(cg=cgf, cg_kwargs=CG_KW)
@@ -890,7 +922,8 @@ def response(draw, nd, n):
 
 
 @st.composite
-def models(draw, linear_only=False, single_only=False, nmax=4, force_two=False, allow_complex=True):
+def models(draw, linear_only=False, single_only=False, nmax=4, force_two=False, allow_complex=True,
+           force_complex=False):
     two = False if single_only else (True if force_two else draw(st.booleans()))
     kinds = ["lin"] if linear_only else (["lin", "lin", "exp", "tanh", "prod", "prod"] if two
                                          else ["lin", "lin", "exp", "tanh"])
@@ -900,7 +933,7 @@ def models(draw, linear_only=False, single_only=False, nmax=4, force_two=False, 
     nd = draw(st.integers(1, 5))
     keys = [["a", na]] + ([["b", nb]] if two else [])
     R = {k: draw(response(nd, m)) for k, m in keys}
-    cplx = allow_complex and draw(st.integers(0, 3)) == 0
+    cplx = force_complex or (allow_complex and draw(st.integers(0, 3)) == 0)
     Ri = {k: draw(response(nd, m)) for k, m in keys} if cplx else None
     datai = draw(S.vec(nd, S.dyadic(-2.0, 2.0, 4))) if cplx else None
     var = draw(S.vec(nd, S.dyadic_nz(0.25, 4.0, 4, signed=False)))
@@ -960,7 +993,13 @@ def _re_cfg(draw, model, linear):
 def re_linear_recipes(tier):
     @st.composite
     def rec(draw):
-        model = draw(models(nmax=4))
+        if draw(st.integers(0, 7)) == 0:
+            # complex parameters (one key, linear complex response, complex data)
+            model = draw(models(nmax=3, linear_only=True, single_only=True, force_complex=True))
+            model["cpar"] = True
+            model["posi"] = {k: draw(S.vec(m, S.dyadic(-1.5, 1.5, 4))) for k, m in model["keys"]}
+        else:
+            model = draw(models(nmax=4))
         cfg = _re_cfg(draw, model, False)
         cfg["geo"] = model["kind"] == "lin"
         cfg["geo_rows"] = [draw(st.integers(0, 40)), 10**6]     # one generated row and the last dense key
@@ -994,7 +1033,8 @@ def re_mc_recipes(tier):
     return rec()
 
 
-NT = "non-trivial = >= 2 keys or a point estimate or rank-deficient Jacobian (rank < min(n_data, n_latent)); "
+NT = ("non-trivial = >= 2 keys or a point estimate or rank-deficient Jacobian (rank < min(n_data, n_latent)) or "
+      "complex parameters; ")
 
 SUBS = [
     Sub(name="cl_mgvi_tape", check=check_cl, strategy=cl_recipes(False), quick=320, thorough=12000, shards=6,
